@@ -22,3 +22,8 @@ CLAIMS["C15"] = ("proof",
   "ExportCryptoState refuses unless every clean-boundary condition holds and accepts when all hold; the blob layout is proved byte by byte (magic, version, flag bits, key, IVs, counters, three length-prefixed trailers); NewStreamWithCryptoState rejects short / mis-tagged / wrong-version / truncated blobs, restores every crypto field from the blob into fresh storage with empty framing state and without regenerating IV or counters; the lemma export_import_inverse closes import(export(s)) = s on the crypto state.",
   PROOF_NOTE + " bytes.Buffer and encoding/binary.Write are assumed contracts (/verif/specs/buffer.spec). That the peer keeps accepting frames after a hand-off follows from equal crypto state plus the C12/C02 contracts (not re-proved end to end).",
   "deductive verification: WP over go/ssa + SMT (z3/cvc5)", "DESIGN.md 4 (C15)")
+
+CLAIMS["C14"] = ("proof",
+  "Typed values: PutInt appends exactly the 8 big-endian two's-complement bytes of the value (every width through the wrappers), GetInt/GetChar/GetDouble consume exactly 8/1/16 bytes of the unread view and return the decoded value of those bytes, ensureData never changes or consumes already-buffered bytes (so a decoded value cannot depend on where frame boundaries fall), doubles are written as trunc(frac*(2^31-1)) and the binary exponent and decoded as frac/(2^31-1)*2^exp; lemmas int_inverse and double_precision close decode(encode(v)) = v (ints) and |decode(encode(v)) - v| <= 2^e/(2^31-1) (doubles, over the reals).",
+  PROOF_NOTE + " IEEE rounding, NaN and infinities are idealised (math.Frexp/Ldexp are uninterpreted over the reals); string content layout is proved at the consumption/termination level only.",
+  "deductive verification: WP over go/ssa + SMT (z3/cvc5)", "DESIGN.md 4 (C14)")
